@@ -25,6 +25,11 @@ Two tiers of evidence besides the Lean theorems (Props/C14.lean over Model/Hidde
         dialect, after a complete `A` of the OTHER input dialect in both orders (FLEX run after a
         torch-profiler trace with kernel / Memcpy (HtoD) / Memcpy (DtoH) events, and such a TORCH run
         after a FLEX scenario) — dialect-dependent lookups cached per process would show here,
+        after a run of the same or another scenario under OTHER options (--event_limit count / skip /
+        window / no_count_types, --event_filter, -F, --keep_prep, --drop_globals, -O drop, another
+        --freq, -C subsets, --time_unit ms, …) — option state that sticks to the process shows here,
+      * with `-c` and a generated compiler log in which 4..8 categories are never exercised by the
+        trace (rows tied at 0.0 in out_categories.csv/.txt expose hash-order dependent row creation),
       * from a directory whose listing order is reversed (only where a file system with
         creation-order listing is available, e.g. /dev/shm; else skipped and noted),
     and `traceEvents` plus every CSV are compared byte for byte with the reference.  Nothing is
@@ -64,6 +69,9 @@ THEOREMS = [
     "AiuVerif.C14.memo_invisible",
     "AiuVerif.C14.memo_history_invisible",
     "AiuVerif.C14.memo_keyed_by_category_only_leaks",
+    "AiuVerif.C14.preserved_state_invisible",
+    "AiuVerif.C14.option_defaults_invisible",
+    "AiuVerif.C14.option_defaults_in_place_leak",
 ]
 RULE = ("stage level: histories of 1..4 runs (exhaustive two-run histories over a small graph set + random) on the real "
         "EventProcessor/Engine/barrier singleton/job registry, runs may abort after n events, with/without -I, with/without "
@@ -79,6 +87,11 @@ TRUSTED = ["the list of hidden inputs (string hash, shared barrier content, job 
            "were registered by the run itself; both excluded branches have a Lean witness"]
 ASSUMPTIONS = ["CPython dict insertion order; 64-bit hash collisions among a run's (name, pid) keys do not occur"]
 NOT_YET_PROVED = ["completeness of the hidden-input list (cannot be proved; established by the differential runs only)",
+                  "that option parsing leaves the class-level Acelyzer.defaults untouched is a two-line model (parseCopy) with the frame "
+                  "rule preserved_state_invisible and the witness option_defaults_in_place_leak; the real argparse path is covered by the "
+                  "'predecessor under other options' differential only",
+                  "iteration order of sets of strings inside stages (e.g. the per-pid category table of rcu_utilization) is not modelled; "
+                  "covered by the hash-seed differential on a compiler log with categories tied at Kernel_Time 0.0",
                   "dialect-dependent classification (PipelineContextTool.is_category) reads the dialect through the job map only in the "
                   "current code (a jobAnnot lookup in the model); that no process-level cache sits in that path is established by the "
                   "cross-dialect history differential (FLEX after TORCH, TORCH after FLEX) only - memo_invisible / "
@@ -423,7 +436,20 @@ def write_inputs(d, scen):
     if "testdata" in scen:
         td = REPO / "tests" / "test_data"
         shutil.copy(td / "sample_flex_3062_job_4.json", os.path.join(d, "flex_job.json"))
-        shutil.copy(td / "sample_comp_log_ideal.txt", os.path.join(d, "comp_log.txt"))
+        log = (td / "sample_comp_log_ideal.txt").read_text()
+        if scen.get("ghost"):
+            # categories whose kernels never occur in the trace: their rows all tie at Kernel_Time 0.0, so the
+            # category tables show the order in which the rows were created
+            import random
+            rnd = random.Random(scen.get("seed", 0))
+            pool = ["Alpha", "Beta", "Gamma", "Delta", "Eps", "Zeta", "Eta", "Theta", "Iota", "Kappa", "Lambda", "Mu"]
+            names = rnd.sample(pool, scen["ghost"])
+            lines = log.split("\n")
+            at = [k for k, l in enumerate(lines) if l.startswith("addmm_MatMul")][0]
+            lines[at + 1:at + 1] = [f"{('ghost_%d-opCatGhost%s_fp16' % (k, c)).ljust(80)}{1000 * (k + 1):<15}" for k, c in enumerate(names)]
+            log = "\n".join(lines)
+        with open(os.path.join(d, "comp_log.txt"), "w") as fh:
+            fh.write(log)
         return [os.path.join(d, "flex_job.json")], ["-c", os.path.join(d, "comp_log.txt"), "--freq", "560:800"]
     if "torch" in scen:
         p = os.path.join(d, "torch_rank0.json")
@@ -563,6 +589,34 @@ def dialect_predecessor(dialect, rng):
         shutil.rmtree(d, ignore_errors=True)
 
 
+# options of a predecessor run that must not stick to the process (class-level defaults, module-level state)
+OPTION_PREDS = [["--event_limit", '{"count": 3}'], ["--event_limit", '{"skip": 2, "count": 5}'],
+                ["--event_limit", '{"ts_start": 1000000150.0, "ts_end": 1000000400.0}'], ["--event_limit", '{"no_count_types": "MX"}'],
+                ["--event_filter", "name:Cmpt"], ["-F", "C"], ["--keep_prep"], ["--drop_globals"], ["-O", "drop"],
+                ["--freq", "256:300"], ["-C", "power_ts4"], ["-C", "prep_queue"], ["--time_unit", "ms"], ["--keep_names", "--tb"],
+                ["--disable_tb"], ["-t"], ["--flow"], ["-M"], ["--comm_summarize_seq"], ["-k"], ["--ignore_crit"]]
+
+
+def opt_variant(popts):
+    return "after:opts=" + json.dumps(popts)
+
+
+def option_predecessor(popts, rng):
+    from gen import scenario
+    from lib import stage
+    files = scenario.scenario_events(R=rng.choice([2, 3]), groups=1, kernels=rng.randint(1, 2), seed=rng.randint(0, 999))
+    d = tempfile.mkdtemp(prefix="aiuverif_")
+    try:
+        paths = []
+        for name, evs in files.items():
+            stage.write_trace(os.path.join(d, name), evs)
+            paths.append(os.path.join(d, name))
+        rc, err = run_inproc(d, "pred", paths, ["--freq", "512:512", *popts])
+        return rc, err
+    finally:
+        shutil.rmtree(d, ignore_errors=True)
+
+
 def creation_order_tmp():
     """a directory on a file system whose listing order follows creation order (tmpfs), or None"""
     for root in ("/dev/shm",):
@@ -627,12 +681,13 @@ def run_e2e_case(ctx: Ctx, case, pool, verbose=False):
         argv = base_argv + real_opts(case["opts"])
         # reference: a fresh interpreter, PYTHONHASHSEED=0
         futs = {"ref": pool.submit(run_subprocess, d, "ref", paths, argv, 0)}
+        base_of = {v: f"v{i}x" for i, v in enumerate(case["variants"])}
         for v in case["variants"]:
             kind, _, arg = v.partition(":")
             if kind == "seed":
-                futs[v] = pool.submit(run_subprocess, d, "v_" + v.replace(":", ""), paths, argv, int(arg))
+                futs[v] = pool.submit(run_subprocess, d, base_of[v], paths, argv, int(arg))
             elif kind == "I":
-                futs[v] = pool.submit(run_subprocess, d, "v_" + v.replace(":", ""), paths, argv + ["-I"], int(arg))
+                futs[v] = pool.submit(run_subprocess, d, base_of[v], paths, argv + ["-I"], int(arg))
         rc, err = futs["ref"].result()
         if rc != 0:
             return [("ref", False, None, f"reference run failed rc={rc} {err}")]
@@ -641,13 +696,22 @@ def run_e2e_case(ctx: Ctx, case, pool, verbose=False):
         done = {v: f.result() for v, f in futs.items()}
         for v in case["variants"]:
             kind, _, arg = v.partition(":")
-            base = "v_" + v.replace(":", "")
+            base = base_of[v]
             note = ""
             if v in done:
                 rc, err = done[v]
             else:
                 if kind == "after":
-                    if arg == "A":
+                    if arg.startswith("opts="):
+                        popts = json.loads(arg[len("opts="):])
+                        same = rng.random() < 0.7
+                        if same:        # the same scenario (same input paths) under other options
+                            prc, perr = run_inproc(d, "pred" + base, paths, base_argv + popts)
+                        else:           # another scenario under those options
+                            prc, perr = option_predecessor(popts, rng)
+                        note = f"A({'same' if same else 'other'} scenario, options {popts}): rc={prc} {perr[:60]}"
+                        ctx.count("e2e_predecessors_with_other_options", 1)
+                    elif arg == "A":
                         note = "A: " + completed_predecessor(rng)
                     elif arg in ("torch", "flex"):
                         note = f"A({arg.upper()} dialect, complete): " + dialect_predecessor(arg.upper(), rng)
@@ -709,12 +773,16 @@ def gen_e2e_cases(ctx: Ctx):
         scen = {"R": rng.choice([2, 3, 4] if ctx.quick() else [2, 3, 4, 5, 8]), "groups": rng.randint(1, 2), "kernels": rng.randint(1, 3),
                 "seed": rng.randint(0, 10 ** 6)}
         variants = list(VARIANTS_QUICK) if ctx.quick() else VARIANTS_QUICK + [f"seed:{s}" for s in rng.sample(range(100, 10 ** 6), 6)] + ["I:11"]
+        # predecessors with OTHER options: --event_limit always, the rest in rotation (all of them in the thorough tier)
+        others = OPTION_PREDS[1:]
+        pick = others if not ctx.quick() else [others[(4 * k + j) % len(others)] for j in range(4)]
+        variants += [opt_variant(OPTION_PREDS[0])] + [opt_variant(o) for o in pick]
         rng.shuffle(variants)
         yield {"kind": "e2e", "scen": scen, "opts": optsets[k % len(optsets)] if k else [], "variants": variants, "seed": rng.randint(0, 10 ** 6)}
     # TORCH-dialect runs under test (kernel / memcpy events), preceded by FLEX runs and vice versa: both orders of a
     # dialect pair in one process, each compared with its own fresh-interpreter reference
     for k in range(ctx.n(2, 8)):
-        variants = list(VARIANTS_TORCH)
+        variants = list(VARIANTS_TORCH) + [opt_variant(OPTION_PREDS[k % 4]), opt_variant(OPTION_PREDS[4 + k % 10])]
         if k % 2:
             rng.shuffle(variants)
         yield {"kind": "e2e", "scen": {"torch": rng.randint(2, 6), "seed": rng.randint(0, 10 ** 6)},
@@ -722,6 +790,13 @@ def gen_e2e_cases(ctx: Ctx):
     # the compiler-log path (rcu_utilization keeps fingerprints built from hash(str))
     yield {"kind": "e2e", "scen": {"testdata": "flex+complog"}, "opts": [], "seed": rng.randint(0, 10 ** 6),
            "variants": ["seed:1", "seed:5", "seed:12345", "I:2", "inproc", "after:A", "after:abort-be", "inproc-again"]}
+    # a generated compiler log with 4..8 categories the trace never exercises: their rows tie at Kernel_Time 0.0 in
+    # out_categories.csv / .txt, so any hash-order dependence of the row creation order becomes visible
+    for k in range(ctx.n(2, 6)):
+        yield {"kind": "e2e", "scen": {"testdata": "flex+complog+ghost", "ghost": rng.randint(4, 8), "seed": rng.randint(0, 10 ** 6)},
+               "opts": [], "seed": rng.randint(0, 10 ** 6),
+               "variants": ["seed:1", "seed:2", "seed:3", f"seed:{rng.randint(4, 10 ** 6)}", f"seed:{rng.randint(4, 10 ** 6) + 10 ** 6}", "I:2",
+                            "inproc", "after:A", opt_variant(["--event_limit", '{"count": 3}']), "inproc-again"]}
     for k in range(ctx.n(1, 4)):
         yield {"kind": "dirorder", "scen": {"R": rng.choice([3, 4]), "groups": 1, "kernels": rng.randint(1, 2), "seed": rng.randint(0, 10 ** 6)},
                "opts": rng.choice([[], ["--flow"]])}
@@ -792,7 +867,7 @@ def run(ctx: Ctx):
             o = oracle_on_case(ctx, case, pool=pool)
             for v, nt, diff, note in o["results"]:
                 ctx.case_done(dict(case, variants=[v]), key=json.dumps([case["scen"], case["opts"], v], sort_keys=True), nontrivial=nt)
-                ctx.count("e2e_variant_" + v.partition(":")[0], 1)
+                ctx.count("e2e_variant_" + (v.partition("=")[0] if "=" in v else v.partition(":")[0]), 1)
     if ctx.search_mode or not ctx.driver or not ctx.driver.ok:
         return
     answers = ctx.driver.ask([o["line"] for _, o in pending])
